@@ -117,6 +117,19 @@ def run(ctx):
             ctx.case(payload, True, {"case": list(payload),
                                      "impl": repr(exp)[:80]})
 
+        # ---------------- the one grid point before the epoch: 0 shifted
+        # by -1e-6 (int() truncates towards zero there, floor would not)
+        for T in (1, 60):
+            t0, t1 = -1, 2 * T * 1000000 - 1      # t1 - t0 = 2T exactly
+            tok = issue("s", "c", T, t0)
+            res = verify(tok, "s", "c", T, t1)
+            ctx.case(("before-epoch", T), True, {"T": T, "t0_us": t0,
+                                                 "t1_us": t1})
+            if res is not False:
+                ctx.violation("negative-clock-window-truncation", {
+                    "T": T, "t0_us": t0, "t1_us": t1, "verified": repr(res),
+                    "expected": "False (t1 - t0 = 2T)"})
+
         # ---------------- monitor: the property itself, real SHA-256
         session.sha256 = real_sha
         for T in TIMEOUTS:
